@@ -397,6 +397,79 @@ func isoFamily(c *Ctx, maxLen int) {
 	rec(nil)
 }
 
+// isoSame: both sides of the isos are the same struct type and the same fields (copying selected fields
+// between two values of one type).
+func isoSame(c *Ctx, maxLen int) {
+	lx, ly, lz := optics.ForProduct3[isoS, int32, string, [3]byte]()
+	isos := []optics.Isomorphism[isoS, isoS]{nil, optics.Iso(lx, lx), optics.Iso(ly, ly), optics.Iso(lz, lz)}
+	names := []string{"nil", "iX", "iY", "iZ"}
+	var rec func(p []int)
+	rec = func(p []int) {
+		if len(c.R.Viols) > 0 {
+			return
+		}
+		var cover [3]bool
+		var list []optics.Isomorphism[isoS, isoS]
+		var ns []string
+		for _, k := range p {
+			list = append(list, isos[k])
+			ns = append(ns, names[k])
+			if k > 0 {
+				cover[k-1] = true
+			}
+		}
+		label := "same-type Morphism(" + strings.Join(ns, ", ") + ")"
+		c.R.Evaluations++
+		m := optics.Morphism(list...)
+		if len(p) == 1 && p[0] > 0 {
+			m, label = isos[p[0]], "same-type Iso "+names[p[0]]
+		}
+		a, b := newBox(fillS, 1), newBox(fillS, 2)
+		a0, b0 := twinOf(a), twinOf(b)
+		m.Forward(&a.v, &b.v)
+		if cover[0] {
+			b0.v.X = a0.v.X
+		}
+		if cover[1] {
+			b0.v.Y = a0.v.Y
+		}
+		if cover[2] {
+			b0.v.Z = a0.v.Z
+		}
+		if d := diff(a, a0); d != "" {
+			c.Viol("forward-source", "%s.Forward changed the source: %s", label, d)
+			return
+		}
+		if d := diff(b, b0); d != "" {
+			c.Viol("forward-target", "%s.Forward: target differs from copying exactly the foci %v: %s", label, cover, d)
+			return
+		}
+		a2 := newBox(fillS, 0)
+		a20 := twinOf(a2)
+		m.Inverse(&b.v, &a2.v)
+		if cover[0] {
+			a20.v.X = a0.v.X
+		}
+		if cover[1] {
+			a20.v.Y = a0.v.Y
+		}
+		if cover[2] {
+			a20.v.Z = a0.v.Z
+		}
+		if d := diff(a2, a20); d != "" {
+			c.Viol("inverse", "%s: Forward then Inverse does not restore exactly the source foci %v: %s", label, cover, d)
+			return
+		}
+		if len(p) == maxLen {
+			return
+		}
+		for k := range isos {
+			rec(append(append([]int{}, p...), k))
+		}
+	}
+	rec(nil)
+}
+
 func init() {
 	Register(Shape{Name: "X-bimap", Family: "bimap", Source: "type conv struct { Pre int8; S NameStr; Y Bytes; I I16 `hseq:\"num\"`; f F32; W I64; Post [3]byte }", Run: func(c *Ctx) {
 		if !c.Is("C04") {
@@ -506,7 +579,7 @@ func init() {
 			}
 		}
 	}})
-	Register(Shape{Name: "X-iso", Family: "iso", Source: "type isoS struct { X int32; pad int8; Y string; Z [3]byte; Own int64 }\ntype isoT struct { Own1 bool; Z [3]byte; Y string; Own2 int16; X int32 }\n// all lists over {nil, iX, iY, iZ, Morphism(iX,iY), Morphism(nil,iZ)}", Run: func(c *Ctx) {
+	Register(Shape{Name: "X-iso", Family: "iso", Source: "type isoS struct { X int32; pad int8; Y string; Z [3]byte; Own int64 }\ntype isoT struct { Own1 bool; Z [3]byte; Y string; Own2 int16; X int32 }\n// all lists over {nil, iX, iY, iZ, Morphism(iX,iY), Morphism(nil,iZ)} between isoS and isoT; all lists of length <= 3 over {nil, iX, iY, iZ} between two values of isoS", Run: func(c *Ctx) {
 		if !c.Is("C04") {
 			return
 		}
@@ -515,6 +588,7 @@ func init() {
 			n = 5
 		}
 		isoFamily(c, n)
+		isoSame(c, 3)
 	}})
 }
 
